@@ -20,6 +20,7 @@ def models(quick):
                          invariants=INVS),
                 ModelRun("C03_two_ham", letters=[0, 1], maxlen=2, maxn=2, maxn2=2, ks=[1, 2], engines=["symdel"], modes=["hamming"],
                          invariants=INVS),
+                ModelRun("C03_k3", letters=[0, 1], maxlen=3, maxn=1, maxn2=1, ks=[3], engines=["symdel"], invariants=INVS),
                 ModelRun("C03_two_hash", letters=[0, 1], maxlen=2, maxn=2, maxn2=2, ks=[1], engines=["hash"],
                          invariants=INVS + ("BallExact",)),
                 ModelRun("C03_two_hash2", letters=[0, 1], maxlen=2, maxn=1, maxn2=2, ks=[2], engines=["hash"],
